@@ -148,8 +148,16 @@ func runCheckOpts(opts *CheckOpts) int {
 		if !serves {
 			continue
 		}
-		if only != "" && !strings.Contains(fc.Key, only) {
-			continue
+		if only != "" {
+			hit := false
+			for _, alt := range strings.Split(only, "|") {
+				if alt != "" && strings.Contains(fc.Key, alt) {
+					hit = true
+				}
+			}
+			if !hit {
+				continue
+			}
 		}
 		if fc.MathLemma {
 			vc := newFnVC(prog, nil, fc)
